@@ -11,6 +11,7 @@ def step (s : St) : List String → St × String
   | ["new", d] => match decStr? d with
     | some d => ({ delim := d, ix := {} }, "ok")
     | none => (s, "bad-op")
+  | ["newbin", _prog] => ({ delim := "::", ix := {} }, "ok")
   | ["insert", path, v] => match decList? decStr? path, decNat? v with
     | some p, some v => ({ s with ix := s.ix.insert p v }, "ok")
     | _, _ => (s, "bad-op")
